@@ -51,8 +51,14 @@ def judge(ctx, s, flavour, desc, extra_env=None, diff=None):
         extra = ["**"] if diff else []
         res = run.run(ctx.bins[flavour], extra, root, stdin=sin, env=env, cpu_limit=60)
         lst = run.run(ctx.bins[flavour], ["list"] + extra, root, stdin=sin, env=env, cpu_limit=60)
+        # a report that cannot be delivered (stdout is a full device) must not end as a success
+        full = run.run(ctx.bins[flavour], ["list"] + extra, root, stdin=sin, env=env, cpu_limit=60, stdout_to="/dev/full") if desc.get("j") == 0 and flavour == "rel" else None
     finally:
         run.rm(root)
+    if full is not None and lst.cls == "ok" and (full.rc == 0 or bad_outcome(full)):
+        return Case(VIOLATED, key=h([s.files, "stdout-full"]), nontrivial=True, sig="C11/list-undeliverable-report-%s" % full.cls, evals=3,
+                    summary="`list` with stdout on /dev/full ended %s (exit %s): a listing that could not be written is not a success" % (full.cls, full.rc),
+                    witness={"files": files_text(s.files, 1500), "observed": full.brief(800)})
     tsan_sigs, tsan_ignored = tsan_collect(tsan_dir) if tsan_dir else ([], 0)
     key = h(s.files)
     exp = sorted(s.expected, key=str)
